@@ -20,6 +20,11 @@ recovery and fallback error response).
     initial 200) and adds up the bytes of every Write; 1xx headers are not recorded.
   * the client side is net/http's ResponseWriter: the first final WriteHeader (or the first Write,
     as 200) fixes the status, later WriteHeader calls are ignored.
+  * faults of the writer underneath: a handler may declare a Content-Length (`Op.declare`, in effect
+    if set before the header goes out); net/http then REFUSES every Write that would exceed it
+    (`http.ErrContentLength`, no byte is sent) — but the header is committed by that Write all the
+    same.  The recorder is told whether the Write underneath succeeded (`ok`): a refused Write adds
+    nothing to the size and still marks the header as written.
 
 Path matching (`httpserver.Path.Matches`) is a parameter `m`.
 
@@ -67,6 +72,9 @@ def logParse (ds : List Directive) : List Rule := logParseGo ds 0 []
 inductive Op where
   | header (code : Nat)
   | write (n : Nat)
+  /-- `w.Header().Set("Content-Length", n)`: the handler announces the body length (as a file
+  server does from a stat) -/
+  | declare (n : Nat)
 deriving Repr, DecidableEq
 
 /-- the inner handler's behaviour on one request -/
@@ -86,16 +94,36 @@ structure Client where
   wrote  : Bool := false
   status : Nat := 200
   size   : Nat := 0
+  /-- the Content-Length in the header map (`declared`) and the one in effect since the header
+  went out (`limit`, net/http's `response.contentLength`) -/
+  declared : Option Nat := none
+  limit    : Option Nat := none
+  /-- net/http's `response.written`: the bytes of every Write call, refused ones included -/
+  asked  : Nat := 0
 deriving Repr, DecidableEq
 
 /-- 1xx other than 101: sent at once, followed by the final status -/
 def informational (code : Nat) : Bool := 100 ≤ code && code ≤ 199 && code != 101
 
-def Client.apply (c : Client) : Op → Client
-  | .header code => if c.wrote || informational code then c else { c with wrote := true, status := code }
+/-- does the writer underneath accept this operation?  Only a Write can be refused: one of n > 0
+bytes that takes the bytes asked for beyond the Content-Length in effect (when the header is not
+out yet, the declared one comes into effect with this very Write). -/
+def Client.accepts (c : Client) : Op → Bool
   | .write n =>
-    if c.wrote then { c with size := c.size + n }
-    else { wrote := true, status := 200, size := c.size + n }
+    match (if c.wrote then c.limit else c.declared) with
+    | none => true
+    | some l => n == 0 || c.asked + n ≤ l
+  | _ => true
+
+def Client.apply (c : Client) : Op → Client
+  | .header code =>
+    if c.wrote || informational code then c else { c with wrote := true, status := code, limit := c.declared }
+  | .write n =>
+    let ok := c.accepts (.write n)
+    let sz := if ok then c.size + n else c.size
+    if c.wrote then { c with size := sz, asked := c.asked + n }
+    else { c with wrote := true, status := 200, size := sz, limit := c.declared, asked := c.asked + n }
+  | .declare n => { c with declared := some n }
 
 /-- `ResponseRecorder` (status starts as 200; `wroteHeader`) -/
 structure Recorder where
@@ -104,15 +132,19 @@ structure Recorder where
   size   : Nat := 0
 deriving Repr, DecidableEq
 
-/-- `ResponseRecorder.WriteHeader` / `.Write` -/
-def Recorder.apply (r : Recorder) : Op → Recorder
+/-- `ResponseRecorder.WriteHeader` / `.Write`; `ok` = the Write of the writer underneath returned
+no error.  `wroteHeader` is set BEFORE the Write underneath is attempted: net/http commits the
+header on the first Write even when it refuses the bytes.  Header fields go to the header map of
+the writer underneath, the recorder keeps nothing of them. -/
+def Recorder.apply (r : Recorder) (ok : Bool) : Op → Recorder
   | .header code => if !r.wrote && !informational code then { r with status := code, wrote := true } else r
-  | .write n => { r with wrote := true, size := r.size + n }
+  | .write n => { r with wrote := true, size := if ok then r.size + n else r.size }
+  | .declare _ => r
 
 /-- a handler writing through the recorder: both see every operation -/
 def runOps : List Op → Recorder × Client → Recorder × Client
   | [], s => s
-  | op :: ops, (r, c) => runOps ops (r.apply op, c.apply op)
+  | op :: ops, (r, c) => runOps ops (r.apply (c.accepts op) op, c.apply op)
 
 def clientOps : List Op → Client → Client
   | [], c => c
